@@ -49,12 +49,16 @@ GradePart(c, x, gs) == [B \in DOMAIN x |-> IF c.pop[B] \in gs THEN x[B] ELSE CZe
 (*   keep(r, s, t): r, s the grades of the two blades, t that of e_A e_B.   *)
 (***************************************************************************)
 Product(c, x, y, keep(_, _, _)) ==
+  \* the operands are forced to explicit functions once (TLCEval): TLC evaluates a function constructor lazily at every
+  \* application, which makes nested products exponential in the nesting depth
   LET d == c.d
-      SX == Supp(x)
-      SY == Supp(y)
+      xv == TLCEval(x)
+      yv == TLCEval(y)
+      SX == Supp(xv)
+      SY == Supp(yv)
       term(A, K) == LET B == BXor(d, A, K) IN
                     IF B \in SY /\ keep(c.pop[A], c.pop[B], c.pop[K])
-                    THEN CSigned(Sgn(c, A, B), CMul(x[A], y[B])) ELSE CZero
+                    THEN CSigned(Sgn(c, A, B), CMul(xv[A], yv[B])) ELSE CZero
   IN  [K \in Blades(d) |-> CSumSet(SX, LAMBDA A : term(A, K))]
 
 Abs(n) == IF n < 0 THEN 0 - n ELSE n
